@@ -29,8 +29,8 @@ EXPLANATION = (
     "per-bit truth table decides it exactly: match <=> mask bit set or address bit == base bit (a form that is not "
     "bit-parallel, e.g. with shifts or subtraction, is evaluated by the analyser's own expression evaluator on 32-bit words "
     "built from a few octet patterns: a disagreement with 'ignore the wildcard bits' is reported as a violation with the "
-    "R7.6 the numeric settings this property depends on are never tested by truthiness (`x or default`, `if x:`), because 0 is a legal value for them. "
-    "counterexample, sampled agreement proves nothing and ends fail-closed in ANALYSIS-ERROR). NOT decided: IPv4Address equality itself and "
+    "counterexample, sampled agreement proves nothing and ends fail-closed in ANALYSIS-ERROR). R7.6 the numeric settings this property depends on are never tested by truthiness (`x or default`, `if x:`) - 0 is a legal value for them. "
+    "NOT decided: IPv4Address equality itself and "
     "bounded-exhaustive verdict equivalence against a reference filter."
 )
 TECHNIQUE = "static: CFG structure of the scan loop, finite truth tables of the rule matcher and bounds tests over stand-in values, sibling agreement of the three front ends"
